@@ -305,6 +305,43 @@ func structuredLayouts() []layout {
 		as.Timeline = nil // empty timeline: no segments
 		add(one("time-empty-timeline", as))
 	}
+	// --- $Time$: hole / overlap in the AUDIO table beside a video reference (audio is re-segmented, its
+	// table must be contiguous all the same)
+	{
+		explicit := func(segs []segSpec) []sEntry {
+			var out []sEntry
+			for _, sg := range segs {
+				out = append(out, sEntry{T: p64(sg.Tfdt), D: segTotal(sg)})
+			}
+			return out
+		}
+		mkTimeAudio := func(shift int64, from, to int) asSpec {
+			r := repSpec{ID: "A1", Timescale: 48000, TrexDur: 0, Segs: mkSegs(segsOpt{n: 3, sampleD: 1536, count: 62, enc: "tfhd", timeName: true})}
+			for i := from; i < to; i++ {
+				r.Segs[i].Tfdt = uint64(int64(r.Segs[i].Tfdt) + shift)
+				r.Segs[i].Name = fmt.Sprintf("%d.m4s", r.Segs[i].Tfdt)
+			}
+			as := audioSet(r)
+			as.Media = timeMedia
+			as.StTimescale = p32(48000)
+			as.HasTimeline = true
+			as.Timeline = explicit(r.Segs)
+			return as
+		}
+		for _, c := range []struct {
+			name     string
+			shift    int64
+			from, to int
+		}{{"time-audio-plain", 0, 0, 0}, {"time-audio-gap", 1536, 1, 3}, {"time-audio-overlap", -1536, 1, 3},
+			{"time-audio-second-later", 1536, 1, 2}, {"time-audio-last-later", 1536, 2, 3}} {
+			v, _ := mkTime(1000, 3, 40, 50, "trex")
+			add(one(c.name, mkTimeAudio(c.shift, c.from, c.to), v))
+			v2, _ := mkTime(1000, 3, 40, 50, "trex")
+			add(one(c.name+"-video-first", v2, mkTimeAudio(c.shift, c.from, c.to)))
+		}
+		// $Number$ video with $Time$ audio that has a hole
+		add(one("number-video-time-audio-gap", mkTimeAudio(1536, 1, 3), videoSet(vrep("V1", 1000, 3, 40, 50, "trex"))))
+	}
 	// --- thumbnails
 	mkThumbs := func(n int, first uint32) repSpec {
 		var segs []segSpec
